@@ -294,6 +294,7 @@ empty fillc(int[] q) { q[0] += 1; }
 int bumpr(int[] q) { q[0] += 100; return 1; }
 int touchg() { GR[1] = 50; return 2; }
 int addg(int v) { g += v; return g; }
+int revsum(const int[] q) { int t = 0; int left = q.length; while (left) { if (left != q.length) { t += 1; } left -= 1; t = t * 2 + q[left]; } return t; }
 empty dump(int x, int y, const int[] r) {
     write(" x="); write(x); write(" y="); write(y); write(" g="); write(g);
     write(" r="); write(r[0]); write(','); write(r[1]); write(','); write(r[2]);
@@ -333,6 +334,8 @@ S_ATOMS = [
     'y = twice() + twice();',
     'r[0] += bumpr(r); GR[1] -= touchg(); y += GR[1];',
     'for (int i = 0; i < 2; i += 1) { bool[] bq = [true, false]; if (bq[1]) { y += 100; } bq[1] = true; byte[] yq = [\'a\', \'b\']; yq[0] += 1; y += yq[0]; }',
+    # a value just stored is tested at a loop head that is also reached from the back edge
+    '{ y += revsum(r); int left = sum(r) % 4; while (left) { left -= 1; y += left * 2 + r[left % 3]; } x = (x % 3 + 3) % 3 + 1; while (x) { x -= 1; y += 1; r[x] += y; } }',
     # x op= e reads x first: the right-hand side may change the global on the left
     'g += addg(2); y -= g; g *= addg(1); y += g;',
     # a const copy of a mutable local is a value of its own
